@@ -11,6 +11,7 @@ import TpmModel.Front
 import TpmModel.Cache
 import TpmModel.Print
 import TpmModel.Obj
+import TpmModel.Cli
 /-! Line-protocol driver: one operation per input line, canonical observation lines + `END` per operation. -/
 
 def findType (n : String) : Option Ty := (Generated.typeByName.find? (·.1 == n)).map (·.2)
@@ -118,6 +119,21 @@ def handle (line : String) : List String :=
       match evs with
       | none => ["X unknown-type " ++ ty]
       | some es => es.map fun e => s!"M 0 {e.str}"
+  | ["TYPES", hex] =>
+    match bytesOfHex hex with
+    | none => ["X bad-hex"]
+    | some bs =>
+      (typeListing Generated.msgTables (Generated.structures.map fun t => (t.name, t)) Generated.ccMembers bs).map fun n => "T " ++ n
+  | ["PLAN", fmtIn, ty, cmd] =>
+    let plan := convertPlan ((Generated.structures.map fun t => (t.name, t))) Generated.ccMembers fmtIn
+      (if ty == "-" then none else some ty) (if cmd == "-" then none else some cmd)
+    [match plan with
+     | .refused _ => "L refused"
+     | .crashed c => "L crashed " ++ c
+     | .run .stream => "L run Stream"
+     | .run .command => "L run Command"
+     | .run (.response cc _) => "L run Response " ++ optIntStr cc
+     | .run (.ty t) => "L run " ++ t.name]
   | ["SPECP", ty, sel, vs] =>
     match (Pinned.typeByName.find? (·.1 == ty)).map (·.2), parseValStr vs with
     | some t, some v =>
